@@ -115,7 +115,7 @@ def step(h, tier):
 # ---------------------------------------------------------------------------------------------------------------------
 def shards(tier):
     from mc.props import c18
-    return [s for s in c18.shards(tier) if s.get('kind') == 'lf' and s['mode'] == 'distinct'] + [{'kind': 'many-copies'}, {'kind': 'reidentify'}]
+    return [s for s in c18.shards(tier) if s.get('kind') == 'lf' and s['mode'] == 'distinct'] + [{'kind': 'many-copies'}, {'kind': 'reidentify'}, {'kind': 'kinds-across-sets'}]
 
 
 def cases(shard, tier):
@@ -124,6 +124,14 @@ def cases(shard, tier):
         for n in (3, 129, 130, 256):
             for kind in ('zone', 'channel'):
                 yield {'many_copies': n, 'kind': kind}
+        return
+    if shard.get('kind') == 'kinds-across-sets':
+        # for EVERY object kind: equally named objects in two differently named sets of the kind (each add_* method has
+        # its own copy of the set look-up / registration code)
+        from mc.schema import KINDS
+        for k in KINDS:
+            for order in ('AB', 'AAB', 'ABA', 'ABB'):
+                yield {'across_sets': k, 'order': order}
         return
     if shard.get('kind') == 'reidentify':
         # the identity (origin reference) of 1..2 objects is changed between two writes of the same file object:
@@ -140,6 +148,44 @@ def cases(shard, tier):
 
 
 REIDENT_TARGETS = ['A', 'C', 'F', 'G', 'LN', 'N', 'P', 'T', 'Z']
+
+
+def across_sets_spec(case):
+    from mc.props.c20 import KIND_REJECT
+    k = case['across_sets']
+    good = KIND_REJECT[k][1]
+    ops = [S.op_lf(), S.op_origin(),
+           S.op_add('channel', 'C', 'CHAN', data=S.arr_spec('uint8', [2], [1, 2])),
+           S.op_add('channel', 'C2', 'CHAN2', data=S.arr_spec('uint8', [2], [3, 4])),
+           S.op_add('channel', 'C3', 'CHAN3', data=S.arr_spec('uint8', [2], [5, 6])),
+           S.op_add('channel', 'C4', 'CHAN4', data=S.arr_spec('uint8', [2], [7, 8])),
+           S.op_add('frame', 'F', 'FRAME', channels=[{'$ref': 'C'}]), S.op_add('zone', 'Z', 'ZONE')]
+    free = ['C2', 'C3', 'C4']
+    hs = []
+    for j, sname in enumerate(case['order']):
+        kw = dict(good)
+        if k == 'frame':
+            kw['channels'] = [{'$ref': free[j]}]
+        if k == 'channel':
+            kw['data'] = S.arr_spec('uint8', [2], [10 + j, 20 + j])
+        if k == 'origin':
+            kw.pop('file_set_number', None)
+        ops.append(S.op_add(k, f'X{j}', 'SAME', set_name=f'SET-{sname}', **kw))
+        hs.append(f'X{j}')
+    if k != 'frame':
+        ops.append(S.op_add('frame', 'F2', 'FRAME2', channels=[{'$ref': h} for h in free]))
+    else:
+        for h in free[len(case['order']):]:
+            ops.append(S.op_add('frame', f'F-{h}', f'FRAME-{h}', channels=[{'$ref': h}]))
+    if k == 'channel':
+        for j, h in enumerate(hs):
+            ops.append(S.op_add('frame', f'FX{j}', f'FRAME-X{j}', channels=[{'$ref': h}]))
+    if k == 'no_format':
+        for j, h in enumerate(hs + hs):
+            ops.append({'op': 'nfdata', 'lf': 'L0', 'nf': h, 'data': f'payload {j} of {h}'})
+    # every copy is referred to once (OBJREF carries the set type, OBNAME only origin / copy / name)
+    ops.append(S.op_add('group', 'G', 'GROUP', object_list=[{'$ref': h} for h in hs]))
+    return {'sul': {'max_record_length': 8192}, 'ops': ops, 'write': {}}
 
 
 def reidentify_spec():
@@ -229,7 +275,10 @@ def run_case(case):
     from mc.props import c18
     if 'reidentify' in case:
         return run_reidentify(case)
-    if 'many_copies' in case:
+    if 'across_sets' in case:
+        sp = across_sets_spec(case)
+        brief, fam = case, 'across-sets'
+    elif 'many_copies' in case:
         sp = many_copies_spec(case)
         brief, fam = case, 'many-copies'
     else:
@@ -248,8 +297,10 @@ def run_case(case):
             errs = M.check_identity_and_refs(m, mlf, lf) + M.check_inventory(m, mlf, lf)
             errs += [(c, d) for c, d in M.check_attrs(m, mlf, lf) if c.split(':')[0] in REF_CODES]
             errs += [(c, d) for c, d in M.check_rows(m, mlf, lf) if c in ('fdata_unknown_frame', 'fdata_header')]
+            if fam == 'across-sets':
+                errs += M.check_noformat(m, mlf, lf) + M.check_rows(m, mlf, lf)
             for code, d in errs:
                 viol.append((f"C07:{fam}:{code}", f"logical file {i}: {d[:250]} | {brief}"))
     except R.FormatError as e:
         viol.append((f"C07:{fam}:unparsable:{e.code}", f"{e} | {brief}"))
-    return Outcome('ok:many-copies' if 'many_copies' in case else 'ok:multi-lf', viol, True, digest=sha(res['data']))
+    return Outcome(f'ok:{fam}', viol, True, digest=sha(res['data']))
